@@ -89,11 +89,14 @@ func (d *updogDriver) openFile(file string, optValues url.Values) (driver.Conn, 
 		opts = append(opts, updog.WithCache(lruCache))
 	}
 
-	d.fileConnMtx.RLock()
-	conn, ok := d.fileConnCache[key]
-	d.fileConnMtx.RUnlock()
+	// Lookup, open and insert form one critical section: two goroutines using a data
+	// source for the first time must not both open the file (the second bbolt.Open
+	// would block forever on the file lock held by the first), and a handle must not
+	// be handed out while its last reference is being closed.
+	d.fileConnMtx.Lock()
+	defer d.fileConnMtx.Unlock()
 
-	if ok {
+	if conn, ok := d.fileConnCache[key]; ok {
 		conn.refs.Add(1)
 		return conn, nil
 	}
@@ -103,15 +106,15 @@ func (d *updogDriver) openFile(file string, optValues url.Values) (driver.Conn, 
 		return nil, fmt.Errorf("couldn't open index file %q: %v", file, err)
 	}
 
-	conn = &fileConn{
+	conn := &fileConn{
 		idx: idx,
+		d:   d,
+		key: key,
 	}
 
-	d.fileConnMtx.Lock()
-	d.fileConnCache[key] = conn
-	d.fileConnMtx.Unlock()
-
 	conn.refs.Add(1)
+
+	d.fileConnCache[key] = conn
 
 	return conn, nil
 }
@@ -127,6 +130,10 @@ func (d *updogDriver) openConn(host string, port string) (driver.Conn, error) {
 
 type fileConn struct {
 	idx *updog.Index
+
+	// d and key identify the entry of the driver's connection cache.
+	d   *updogDriver
+	key fileCacheKey
 
 	refs atomic.Int32
 }
@@ -148,9 +155,24 @@ func (c *fileConn) prepare(query string) (*fileStmt, error) {
 }
 
 func (c *fileConn) Close() error {
+	// The last Close removes the entry from the cache before the index is closed, under
+	// the lock openFile takes: a later Open then opens the file afresh instead of being
+	// handed this closed connection.
+	c.d.fileConnMtx.Lock()
+	defer c.d.fileConnMtx.Unlock()
+
 	if c.refs.Add(-1) <= 0 {
+		if c.d.fileConnCache[c.key] == c {
+			delete(c.d.fileConnCache, c.key)
+		}
+
 		idx := c.idx
 		c.idx = nil
+
+		if idx == nil {
+			return nil
+		}
+
 		return idx.Close()
 	}
 
